@@ -266,23 +266,30 @@ class ModelLoader(object):
             if not isinstance(stmt, CreateAssociationStmt):
                 continue
             
+            declared_keys = list()
             for kind, keys in ((stmt.source_kind, stmt.source_keys),
                                (stmt.target_kind, stmt.target_keys)):
                 metaclass = metamodel.find_metaclass(kind)
+                unames = dict((name.upper(), name) 
+                              for name in metaclass.attribute_names)
                 for name in keys:
-                    if metaclass.attribute_type(name) is None:
+                    if name.upper() not in unames:
                         raise ParsingException("%s:%s:%s.%s is undefined" %
                                                (stmt.filename, stmt.lineno,
                                                 kind, name))
+                
+                # attribute names are case insensitive, use the declared ones
+                declared_keys.append([unames[name.upper()] for name in keys])
             
+            source_keys, target_keys = declared_keys
             ass = metamodel.define_association(stmt.rel_id,
                                          stmt.source_kind,
-                                         stmt.source_keys,
+                                         source_keys,
                                          'M' in stmt.source_cardinality,
                                          'C' in stmt.source_cardinality,
                                          stmt.source_phrase,
                                          stmt.target_kind,
-                                         stmt.target_keys,
+                                         target_keys,
                                          'M' in stmt.target_cardinality,
                                          'C' in stmt.target_cardinality,
                                          stmt.target_phrase)
